@@ -12,6 +12,7 @@ mod locks;
 mod panics;
 mod placement;
 mod pool;
+mod regs;
 mod sig;
 mod sim;
 mod times;
@@ -47,6 +48,7 @@ fn main() {
         "sim" => sim::run(&args[2], &args[3]),
         "sig" => sig::run(&args[2], &args[3]),
         "asyncs" => asyncs::run(&args[2], &args[3]),
+        "regs" => regs::run(&args[2], &args[3]),
         "selfcheck" => {
             // used by `check.py setup`: proves interposition is live
             events::open(&args[2]);
